@@ -331,7 +331,11 @@ fn geometry_stream(r: &mut Rng, prop: &str, tier: u32, out: &mut Vec<String>) {
         let u = plane_n(cw, ch, cxd, cyd, cxp, cyp);
         // the V plane gets its own padding (hence its own stride and origin): U and V need not share a layout
         let (vxp, vyp) = if r.below(3) == 0 { (cxp, cyp) } else { (*r.pick(&[0u64, 1, 8, 17, 33, 64, 70]), r.below(18)) };
-        let v = if wellformed || r.below(2) == 0 { plane_n(cw, ch, cxd, cyd, vxp, vyp) } else { plane_n(cw + r.below(2), ch, cxd, cyd, vxp, vyp) };
+        // ... nor a decimation: in the malformed half the V plane's xdec/ydec are drawn independently of U's one time in three
+        // (a frame whose chroma planes have the right sizes and a correct U but a wrong V decimation must be rejected, and one whose
+        // V is right and U wrong as well)
+        let (vxd, vyd) = if !wellformed && r.below(3) == 0 { match r.below(3) { 0 => (ssx as u64, ssy as u64), 1 => (r.below(3), cyd), _ => (cxd, r.below(3)) } } else { (cxd, cyd) };
+        let v = if wellformed || r.below(2) == 0 { plane_n(cw, ch, vxd, vyd, vxp, vyp) } else { plane_n(cw + r.below(2), ch, vxd, vyd, vxp, vyp) };
         // one out-of-range sample now and then (16-bit storage below 16 bit): poke a buffer index
         let mut fill = format!("fill {} {}", r.below(1 << 30), maxcode);
         if ts == 2 && bd < 16 && r.below(3) == 0 {
@@ -372,7 +376,11 @@ fn geometry_stream(r: &mut Rng, prop: &str, tier: u32, out: &mut Vec<String>) {
                 1 => { let (a, b) = (w >> ssx, h >> ssy); let k = *r.pick(&[2u64, 3, 4]); if b % k == 0 { (a * k, b / k) } else if a % k == 0 { (a / k, b * k) } else { (a * b, 1) } }
                 _ => (cw, ch) };
             let u = if r.below(2) == 0 { raw(r, cw, ch, ssx as u64, ssy as u64) } else { plane_n(cw, ch, ssx as u64, ssy as u64, 0, 0) };
-            let v = if r.below(2) == 0 { raw(r, cw, ch, ssx as u64, ssy as u64) } else { plane_n(cw, ch, ssx as u64, ssy as u64, 0, 0) };
+            // one frame in six: everything right except the decimation of exactly one chroma plane
+            let (uxd, uyd, vxd, vyd) = match r.below(12) { 0 => ((ssx as u64 + 1) % 3, ssy as u64, ssx as u64, ssy as u64), 1 => (ssx as u64, ssy as u64, (ssx as u64 + 1) % 3, ssy as u64),
+                2 => (ssx as u64, ssy as u64, ssx as u64, (ssy as u64 + 1) % 3), 3 => (ssx as u64, (ssy as u64 + 2) % 3, ssx as u64, ssy as u64), _ => (ssx as u64, ssy as u64, ssx as u64, ssy as u64) };
+            let u = if (uxd, uyd) != (ssx as u64, ssy as u64) { plane_n(cw, ch, uxd, uyd, 0, 0) } else { u };
+            let v = if (vxd, vyd) != (ssx as u64, ssy as u64) { plane_n(cw, ch, vxd, vyd, 0, 0) } else if r.below(2) == 0 { raw(r, cw, ch, ssx as u64, ssy as u64) } else { plane_n(cw, ch, ssx as u64, ssy as u64, 0, 0) };
             let line = format!("{} {} {} {} 0 BT709 BT1886 BT709 | {} | {} | {} | fill {} {}", ts, bd, ssx, ssy, y, u, v, r.below(1 << 20), (1u64 << bd) - 1);
             out.push(format!("ynew {}", line));
             if prop == "C07" { out.push(format!("ydec {}", line)); }
